@@ -62,6 +62,14 @@ func totalAlloc(m *runtime.MemStats) uint64 {
 	return m.TotalAlloc
 }
 
+// collectIfNeeded runs a synchronous collection when the heap has grown (the
+// workers run with GOGC=off, see workerEnv).
+func collectIfNeeded(m *runtime.MemStats) {
+	if m.HeapAlloc > 40<<20 {
+		runtime.GC()
+	}
+}
+
 // decodeOnce runs the real ggml.Decode on data. measure=false skips the
 // allocation accounting (used inside batches that are accounted as a group).
 func decodeOnce(data []byte, maxArray int, measure bool) (res decodeResult) {
@@ -188,6 +196,9 @@ func checkDecode(data []byte, maxArray int) (*finding, string, error) {
 		return ""
 	}
 	v := verdict(res)
+	if os.Getenv("C10_VERBOSE") != "" && v == "alloc" {
+		fmt.Fprintf(os.Stderr, "C10-DEBUG %s alloc=%d outcome=%s err=%s\n", phase, res.Alloc, res.Outcome, res.Err)
+	}
 	if res.Alloc > 16<<20 {
 		runtime.GC() // free the big block now, the next run must be able to reuse its address space
 	}
@@ -200,7 +211,15 @@ func checkDecode(data []byte, maxArray int) (*finding, string, error) {
 		if r2.Alloc > 16<<20 {
 			runtime.GC()
 		}
+		if os.Getenv("C10_VERBOSE") != "" {
+			fmt.Fprintf(os.Stderr, "C10-DEBUG rerun %s alloc=%d outcome=%s\n", phase, r2.Alloc, r2.Outcome)
+		}
 		if v2 := verdict(r2); v2 != v {
+			if v == "alloc" && v2 == "" {
+				// measurement noise only adds (lazy initialisation on a first call): a run
+				// under the bound decides
+				return nil, res.Outcome, nil
+			}
 			return nil, res.Outcome, fmt.Errorf("verdict not reproducible for %s: %q then %q", phase, v, v2)
 		}
 	}
